@@ -301,6 +301,8 @@ def _rec_add_children(ttns: TreeTensorNetworkState,
     """
     for child_id in node.children:
         child_node, child_tensor = ttns[child_id]
+        # The TTNDO must not share memory with the state it is built from
+        child_tensor = deepcopy(child_tensor)
         # If the parent is the root, it got an additional leg now
         parent_leg = node.neighbour_index(child_id) + int(node.is_root())
         ttndo.add_symmetric_children_to_parent(child_id,
